@@ -119,4 +119,38 @@ PROPS = {
             "through compiled scripts",
         ],
     ),
+
+    "C13": dict(
+        prop_file="Properties/C13.v",
+        check_module="C13Check",
+        theorems={t: [] for t in [
+            "C13_every_history", "C13_get", "C13_insert", "C13_entry", "C13_remove",
+            "C13_other_handles_after_remove", "C13_iter_len", "C13_mask_is_mod"]},
+        n_quick=300, n_thorough=4000,
+        gates=["ht.grew>1", "ht.removed_present", "ht.alloc_failed", "ht.entry_new>16", "ht.index_absent",
+               "ht.cap0_not_pow2", "ht.keys=colliding", "ht.keys=small", "ht.keys=random"],
+        rule="random histories (20-300 ops) over HandleTable<drop-logging value, fault-injecting allocator>: insert "
+             "(incl. the invalid handle 0) / entry(+or_insert_with) / entry dropped / remove / get / contains / "
+             "get_mut-write / index / reserve / clear / clone / len / capacity / iter; requested initial capacity "
+             "0..40 incl. non powers of two; handle universes: sets sharing one home bucket under every mask "
+             "(computed with the inverse of the fibonacci multiplier), small integers, random 32-bit; 1 in 8 "
+             "allocating operations fails (first or second allocation); result and drop log after every operation "
+             "compared with the Coq model and with a reference map + drop accounting; non-trivial = >= 4 operation "
+             "kinds and at least one growth; distinct = distinct case term",
+        trusted_base=COMMON_TB + [
+            "modelled, not verified: collections/handle_table.rs (with_capacity, pad_pot, find_ind, insert/_insert, "
+            "grow/adjust_capacity, reserve with its f32 factor, entry/or_insert_with, remove, get/get_mut/contains, "
+            "clear/Drop, clone, iter); Index/IndexMut are exercised through get + the same assertion because they are "
+            "only implemented for the default allocator",
+            "the masked probe `& (capacity-1)` is modelled as `mod capacity`; C13_mask_is_mod + the power-of-two "
+            "capacity invariant in C13_every_history justify it; the capacity itself is compared on every run",
+            "tools/gen_consts.py regenerates MAX_LOAD, 1.0+MAX_LOAD, growth rule, minimum capacity, fibonacci "
+            "multiplier from /repo; the side conditions are re-proved against them"],
+        assumptions=[
+            "handles passed to entry() are non-zero (the property's domain); insert(0) is modelled (InvalidHandle)",
+            "capacities stay below 2^24 (f32 exactness of the load test / reserve factor)",
+            "each value dropped exactly once: checked by the oracle on the implementation's drop log and visible "
+            "per operation in the theorems' drop lists; no global multiset theorem",
+        ],
+    ),
 }
